@@ -35,6 +35,24 @@ StatsOk(e) ==
          /\ S!Total(want.ecu) = Len(lens)                                  \* ECU totals add up to the number of messages
          /\ \A k \in 1..Len(r.merged) : SummaryIs(r.merged[k], want)       \* merging the parts, any order and grouping = the whole
          /\ Len(r.parts) = 3 /\ Len(r.merged) >= 1
+\* ---- the same scan looked at for one thing only (the statistics scan is one more public entry point through which header-type
+\* bytes and ids are decoded): C14 - the flags of the header handed to the visitor are those of the header-type byte, it re-encodes to
+\* that byte; C19 - the ids handed to the visitor obey the id rule
+VisitOk(e, Same(_, _, _)) ==
+  LET lens == R!Cut(e.stream, e.sh)  st == Starts(lens, 0)  r == e.res IN
+  (R!SumSeq(lens) = Len(e.stream) /\ r.v = "ok" /\ Len(r.visits) = Len(lens)) =>
+     \A i \in 1..Len(lens) :
+         LET piece == SubSeq(e.stream, st[i] + 1, st[i] + lens[i])  v == r.visits[i]
+             Differs(h, x) == ~Same(v, h, x) IN
+         ParseVerdictF(piece, e.sh, Differs).v # "filtered"           \* "filtered" = the headers decode and differ from what the visitor was handed
+FlagsSame(v, h, x) == /\ (h.ecu = None) = (v.h.ecu = None) /\ (h.sid = None) = (v.h.sid = None) /\ (h.tms = None) = (v.h.tms = None)
+                      /\ h.ueh = v.h.ueh /\ h.be = v.h.be /\ h.ver = v.h.ver /\ (x = None) = (v.x = None)
+IdsSame(v, h, x) == /\ h.ecu = v.h.ecu /\ (x = None) = (v.x = None) /\ (x # None => x[1].ap = v.x[1].ap /\ x[1].ct = v.x[1].ct)
+Visit14Ok(e) == VisitOk(e, FlagsSame)
+Visit19Ok(e) == /\ VisitOk(e, IdsSame)
+                /\ LET lens == R!Cut(e.stream, e.sh)  st == Starts(lens, 0)  r == e.res IN
+                   (e.sh /\ R!SumSeq(lens) = Len(e.stream) /\ r.v = "ok" /\ Len(r.visits) = Len(lens)) =>
+                      \A i \in 1..Len(lens) : r.visits[i].sh # None /\ r.visits[i].sh[1].ecu = ZField(SubSeq(e.stream, st[i] + 1, st[i] + lens[i]), 13, 4)
 \* ---- beyond the listed properties: reader -> parse -> filter -> statistics (./check extras).
 \* For a stream of complete, well-formed messages: read_message with a filter yields, piece by piece, the filtered-out marker
 \* exactly for the messages whose headers fail the configuration, then end of stream; kept + dropped = number of messages =
@@ -51,7 +69,7 @@ PipelineOk(e) ==
 \* a stream of e.n log messages, all with the same application id, no ECU id, and pairwise distinct context ids (by construction
 \* of the driver): one entry per context id, every table's total = the number of messages
 ManyIdsOk(e) == LET r == e.res IN r.v = "ok" /\ r.ctx_entries = e.n /\ r.ctx_total = e.n /\ r.app_entries = 1 /\ r.app_total = e.n /\ r.ecu_total = e.n
-Matches(e) == CASE e.op = "stats" -> StatsOk(e) [] e.op = "manyids" -> ManyIdsOk(e) [] e.op = "pipeline" -> PipelineOk(e) [] OTHER -> FALSE
+Matches(e) == CASE e.op = "visit14" -> Visit14Ok(e) [] e.op = "visit19" -> Visit19Ok(e) [] e.op = "stats" -> StatsOk(e) [] e.op = "manyids" -> ManyIdsOk(e) [] e.op = "pipeline" -> PipelineOk(e) [] OTHER -> FALSE
 Init == l = 1 /\ bad = <<>>
 Next == l <= Len(Rec) /\ l' = l + 1 /\ bad' = IF Matches(Rec[l]) THEN bad ELSE Append(bad, l)
 Spec == Init /\ [][Next]_<<l, bad>>
